@@ -1,6 +1,6 @@
 """C20 configuration for ./check (see checks/propcfg.py for the keys)."""
 CFG = {
-    "modules": ["VaxisModel.Props.C20", "VaxisModel.Props.C20Ext", "VaxisModel.Props.C20Pixels", "VaxisModel.Props.C20Compose", "VaxisModel.Props.C20Float", "VaxisModel.Props.C20Term", "VaxisModel.Props.C20Generic", "VaxisModel.Witness.F51", "VaxisModel.Witness.F52", "VaxisModel.Witness.F120", "VaxisModel.Witness.F220", "VaxisModel.Witness.F320", "VaxisModel.Witness.F420"],
+    "modules": ["VaxisModel.Props.C20", "VaxisModel.Props.C20Ext", "VaxisModel.Props.C20Pixels", "VaxisModel.Props.C20Compose", "VaxisModel.Props.C20Float", "VaxisModel.Props.C20Term", "VaxisModel.Props.C20Generic", "VaxisModel.Witness.F51", "VaxisModel.Witness.F52", "VaxisModel.Witness.F120", "VaxisModel.Witness.F220", "VaxisModel.Witness.F320", "VaxisModel.Witness.F420", "VaxisModel.Witness.F520"],
     "extractors": ["C20", "C11"],
     "drivers": ["C20"],
     "stateful": True,
